@@ -4,6 +4,7 @@ package c11
 
 import (
 	"context"
+	"errors"
 	"fmt"
 	"net"
 	"strconv"
@@ -163,7 +164,7 @@ func deliveryOf(from string) (w, k int, ok bool) {
 }
 
 func runRemoteCases(t *testing.T, r *rep.Reporter, env instrEnv) {
-	n := r.N(64, 2000)
+	n := r.N(64, 5000)
 	for i := 0; i < n; i++ {
 		idx := baseRemote + i
 		r.Run(idx, fmt.Sprintf("remote-%d", i), func(c *rep.Case) {
@@ -179,10 +180,12 @@ func runRemoteCases(t *testing.T, r *rep.Reporter, env instrEnv) {
 			// one scripted next hop per destination domain
 			zones := map[string]mockdns.Zone{}
 			servers := make([]*smtpd.Server, sc.Domains)
+			var srvErr error
 			addrOf := map[string]string{}
 			for k := 0; k < sc.Domains; k++ {
 				k := k
-				srv, err := smtpd.New(smtpd.Config{PIPELINING: true, EightBitMIME: true, Script: func(ev smtpd.Event) *smtpd.Action {
+				var srv *smtpd.Server
+				cfg := smtpd.Config{PIPELINING: true, EightBitMIME: true, Script: func(ev smtpd.Event) *smtpd.Action {
 					w, dk, ok := deliveryOf(ev.From)
 					if !ok || w >= len(sc.Plans) || dk >= len(sc.Plans[w]) {
 						return nil
@@ -222,9 +225,11 @@ func runRemoteCases(t *testing.T, r *rep.Reporter, env instrEnv) {
 						}
 					}
 					return nil
-				}})
+				}}
+				err := retryPorts(func() (e error) { srv, e = smtpd.New(cfg); return })
 				if err != nil {
-					t.Fatalf("smtpd: %v", err)
+					srvErr = err
+					break
 				}
 				servers[k] = srv
 				mxName := "mx." + rmDomain(k)
@@ -234,9 +239,19 @@ func runRemoteCases(t *testing.T, r *rep.Reporter, env instrEnv) {
 			}
 			defer func() {
 				for _, s := range servers {
-					s.Close()
+					if s != nil {
+						s.Close()
+					}
 				}
 			}()
+			if srvErr != nil {
+				if errors.Is(srvErr, errNoPort) {
+					c.Inconclusive(srvErr.Error())
+					c.Done("", false)
+					return
+				}
+				t.Fatalf("smtpd: %v", srvErr)
+			}
 			resolver := &mockdns.Resolver{Zones: zones}
 			dialer := func(ctx context.Context, network, addr string) (net.Conn, error) {
 				host, _, err := net.SplitHostPort(addr)
